@@ -74,6 +74,7 @@ Fixpoint den_f (fuel : nat) (st : store) (h : N) (a : asg) : bool :=
     let n := get_node st h in den_f f st (if a (nv n) then nhi n else nlo n) a
   end.
 Definition den (st : store) (h : N) : bfun := fun a => den_f (S (N.to_nat h)) st h a.
+Arguments den : simpl never.
 
 Lemma den_f_indep st : WFN st -> forall f1 f2 h a, h < size st ->
   (N.to_nat h < f1)%nat -> (N.to_nat h < f2)%nat -> den_f f1 st h a = den_f f2 st h a.
